@@ -28,6 +28,14 @@ var c13templates = []c13tpl{
 	/* 9 function */ {"-- \x10\nfunction dd(x) end\n-- \x11\nlocal ee = 1\n", []int{0}, "dd"},
 	/* 10 function with a trailing comment on the next declaration */ {"-- \x10\nlocal function dd(x) end\nlocal ee = 1 -- \x11\n", []int{0}, "dd"},
 	/* 11 long comment block */ {"--[[ \x10 ]]\nlocal dd = 1\n", []int{0}, "dd"},
+	/* 12 a block with an empty comment line in it */ {"-- \x10\n--\n-- \x11\nlocal dd = 1\n", []int{0, 1}, "dd"},
+	/* 13 three dashes, no blank */ {"---\x10\nlocal dd = 1\n", []int{0}, "dd"},
+	/* 14 two names declared on one commented line */ {"local ee, dd = 1, 2 -- \x10\n-- \x11\nlocal gg = 3\n", []int{0}, "dd"},
+	/* 15 ... nor has a local declared in the first line of its body */ {"-- \x10\nfunction ee()\n\tlocal dd = 1 -- \x11\n\treturn dd\nend\n", []int{1}, "dd"},
+	/* 16 a table member with a trailing comment, the table with a block above */ {"-- \x10\nlocal ee = {\n\tdd = 1, -- \x11\n}\n", []int{1}, "dd"},
+	/* 17 a member assignment under a comment */ {"local ee = {}\n-- \x10\nee.dd = 1\nlocal gg = 2 -- \x11\n", []int{0}, "dd"},
+	/* 18 a block that ends a function body above the declaration */ {"function ee()\n\treturn 1 -- \x10\nend\nlocal dd = 1\n", []int{}, "dd"},
+	/* 19 the comment of the line after the declaration */ {"local dd = 1\n-- \x10\nlocal ee = 2\n", []int{}, "dd"},
 }
 
 func VerifRun_C13b() {
@@ -96,6 +104,25 @@ func VerifRun_C13b() {
 		if !wanted && has {
 			verifViolation("", "the hover documentation contains a comment that is not attached to the declaration")
 		}
+	}
+	// nothing but the attached comment: what remains of the documentation once the payloads are taken out
+	// is white space
+	rest := doc
+	for k := 0; k < 4; k++ {
+		if pay[k] != "" {
+			if i := strings.Index(rest, pay[k]); i >= 0 {
+				rest = rest[:i] + rest[i+len(pay[k]):]
+			}
+		}
+	}
+	blank := true
+	for i := 0; i < len(rest); i++ {
+		if c := rest[i]; c != ' ' && c != '\t' && c != '\r' && c != '\n' {
+			blank = false
+		}
+	}
+	if !blank {
+		verifViolation("", "the hover documentation contains text that is not part of the attached comment")
 	}
 	if len(tp.want) == 2 && strings.Index(doc, pay[tp.want[0]]) > strings.Index(doc, pay[tp.want[1]]) {
 		verifViolation("", "the lines of the attached comment block are out of order")
